@@ -2,6 +2,7 @@ package selection
 
 import (
 	"fmt"
+	"grog/internal/dag"
 	"grog/internal/label"
 	"grog/internal/model"
 	"slices"
@@ -62,6 +63,46 @@ func (s *Selector) nodeMatchesFilters(
 		s.targetMatchesPatterns(target) &&
 		s.targetTagsMatch(target) &&
 		!s.targetExcludeTagsMatch(target)
+}
+
+// nodeIsSelectedBy reports whether the node is a starting point of a selection on the given graph,
+// i.e. whether it matches the patterns and the type, tag and exclude-tag filters.
+// An alias stands for the target it points to (building an alias transparently builds the aliased target):
+// its own label has to match the patterns and the aliased target has to pass the filters.
+// Otherwise `--exclude-tag=slow //...` would still build a `slow` target that merely has an alias.
+func (s *Selector) nodeIsSelectedBy(graph *dag.DirectedTargetGraph, node model.BuildNode) bool {
+	if _, isTarget := node.(*model.Target); isTarget {
+		return s.nodeMatchesFilters(node)
+	}
+	if !s.nodeMatchesPatterns(node) {
+		return false
+	}
+	aliased := resolveAliasedTarget(graph, node)
+	if aliased == nil {
+		return true
+	}
+	return s.targetMatchesTypeSelection(aliased) &&
+		s.targetTagsMatch(aliased) &&
+		!s.targetExcludeTagsMatch(aliased)
+}
+
+// resolveAliasedTarget follows a chain of aliases to the target it ends in.
+// Returns the node itself if it is a target and nil if the chain does not end in a target.
+func resolveAliasedTarget(graph *dag.DirectedTargetGraph, node model.BuildNode) *model.Target {
+	visited := make(map[label.TargetLabel]bool)
+	for node != nil && !visited[node.GetLabel()] {
+		if target, isTarget := node.(*model.Target); isTarget {
+			return target
+		}
+		visited[node.GetLabel()] = true
+		dependencies := graph.GetDependencies(node)
+		if len(dependencies) == 0 {
+			return nil
+		}
+		// The only dependency of an alias is the node it points to
+		node = dependencies[0]
+	}
+	return nil
 }
 
 func (s *Selector) nodeMatchesPatterns(node model.BuildNode) bool {
